@@ -124,7 +124,9 @@ def run(ctx):
     # bounded model of PanelEstim (shared with C16) is checked here as the design-level run
     ctx.model_check("MCPanelEstim", "MCPanelEstim.%s.cfg" % ctx.tier, coverage=False)
     ctx.exhaustive = False
-    entries = E.classifiers()
+    from sktime.classification.dictionary_based import MUSE
+    entries = E.classifiers() + [{"name": "muse_chi2", "kind": "classifier", "factory": lambda: MUSE(random_state=0),
+                                  "methods": ["predict", "predict_proba"], "multivariate": False, "cost": "fast"}]
     nseeds = 6 if ctx.quick else 20
     recs = []
     for ei, entry in enumerate(entries):
@@ -142,6 +144,9 @@ def run(ctx):
                 sc = {"classifier": entry["name"], "labels": labels, "seed": seed, "n_train": 14 if not unbalanced else 11,
                       "refit": refit, "level": level}
                 if cfg is None:
+                    if entry["name"] == "muse_chi2" and "Found array with 0 feature(s)" in obs["crash"] and \
+                            ctx.known_finding("MUSE-empty-bag", sc):
+                        continue
                     ctx.violation(sc, "crash on valid input: " + obs["crash"])
                     continue
                 recs.append({"tid": len(recs), "cfg": cfg, "obs": obs, "sc": sc})
@@ -189,7 +194,9 @@ def replay(ctx, doc):
         if not ok:
             print("VIOLATION property=C17 replay=%s" % ctx.replay)
         return 0 if ok else 1
-    entry = [e for e in E.classifiers() if e["name"] == sc["classifier"]][0]
+    from sktime.classification.dictionary_based import MUSE
+    entry = [e for e in E.classifiers() + [{"name": "muse_chi2", "factory": lambda: MUSE(random_state=0)}]
+             if e["name"] == sc["classifier"]][0]
     cfg, obs = observe(entry, sc["labels"], sc["seed"], sc.get("n_train", 14), refit=sc.get("refit", False),
                        level=sc.get("level", 0.0))
     print("observed:", canon(obs)[:1500])
